@@ -673,6 +673,32 @@ class SymDict(dict):
         return dict.get(self, k, default)
 
 
+class SymDictFork(dict):
+    """a configuration table (DID -> codec ...) looked up with a symbolic key: the key is compared with each integer key in turn (the value
+    found is an object, so each key gets its own branch); keys of other types ('default') are ordinary"""
+
+    def _find(self, k):
+        if isinstance(k, SymInt):
+            for kk in dict.keys(self):
+                if isinstance(kk, int) and not isinstance(kk, bool) and k == kk:
+                    return kk
+            return None
+        return k if dict.__contains__(self, k) else None
+
+    def __contains__(self, k):
+        return self._find(k) is not None
+
+    def __getitem__(self, k):
+        kk = self._find(k)
+        if kk is None:
+            raise KeyError(k)
+        return dict.__getitem__(self, kk)
+
+    def get(self, k, default=None):
+        kk = self._find(k)
+        return default if kk is None else dict.__getitem__(self, kk)
+
+
 # ------------------------------------------------------------------------------------------------- patched builtins
 _real_isinstance, _real_len, _real_int = isinstance, len, int
 
@@ -697,6 +723,11 @@ def sym_int(x=0, *a):
     if _real_isinstance(x, SymInt):
         return x
     return _real_int(x, *a)
+
+
+def sym_hex(x):
+    """hex() is used for the text of log lines and messages only"""
+    return '<sym>' if _real_isinstance(x, SymInt) else hex(x)
 
 
 _FMT = {'B': 1, 'H': 2, 'L': 4, 'I': 4, 'Q': 8}
@@ -756,6 +787,7 @@ def install(pkg_modules):
         m.isinstance = sym_isinstance
         m.len = sym_len
         m.int = sym_int
+        m.hex = sym_hex
         seen = set()
 
         def walk(c):
